@@ -11,6 +11,9 @@
 //     create,<h>,<path>  write,<h>,<hex>  readn,<h>,<n>  seek,<h>,<off>,<whence>  trunc,<h>,<size>
 //     close,<h>  mkdir,<path>  rename,<old>,<new>  remove,<path>  removeall,<path>
 //     flush,<path>,<0|1>        collectionFileSystem.Flush(path, shortBlocks)
+//     hflush,<path>,<0|1>       the same, but from now on the Keep stub holds every PutB back (the writes are
+//                               "in flight") while the following ops run
+//     release                   let the held writes finish (in arrival order) and wait for quiescence
 //     marshal                   MarshalManifest(".")
 //     sync                      Sync() (the manifest text is the one handed to the API stub)
 //     shapes                    segment shapes of every file: s=:<hexpath>=Z<size>/<seg+seg..>|...:<store> (seg = m<len>[!]
@@ -24,7 +27,9 @@
 // where a listing is the sorted list of d.<hexpath> / f.<hexpath>.<size>.<md5[:12]> (f.<hexpath>.E =
 // read error) of the live filesystem resp. of a second filesystem loaded from the saved text ('x' =
 // no text, 'E' = the text does not load), and <store> the sorted <md5[:12]>+<size> of every block
-// the stub holds. After every op the driver waits until all background flushes have finished.
+// the stub holds. After every op the driver waits until all background flushes have finished (except
+// between hflush and release). An op that does not return within 30 s, or a Keep write slot that is
+// still taken 10 s after every write has returned, ends the case with the result "hang".
 //
 // A non-trivial failure script needs concurrentWriters = 1 (then background writes reach the stub in
 // the order they were started); such a case with another value answers bad-op.
@@ -56,6 +61,24 @@ type verifC09Keep struct {
 	dflt   bool
 	calls  int
 	fails  int
+	gate   chan struct{} // non-nil: PutB calls wait here until it is closed ("hold")
+}
+
+func (k *verifC09Keep) hold() {
+	k.mtx.Lock()
+	defer k.mtx.Unlock()
+	if k.gate == nil {
+		k.gate = make(chan struct{})
+	}
+}
+
+func (k *verifC09Keep) release() {
+	k.mtx.Lock()
+	defer k.mtx.Unlock()
+	if k.gate != nil {
+		close(k.gate)
+		k.gate = nil
+	}
 }
 
 func (k *verifC09Keep) ReadAt(locator string, p []byte, off int) (int, error) {
@@ -77,6 +100,12 @@ func (k *verifC09Keep) ReadAt(locator string, p []byte, off int) (int, error) {
 func (k *verifC09Keep) PutB(p []byte) (string, int, error) {
 	buf := append([]byte(nil), p...)
 	loc := fmt.Sprintf("%x+%d", md5.Sum(buf), len(buf))
+	k.mtx.Lock()
+	gate := k.gate
+	k.mtx.Unlock()
+	if gate != nil {
+		<-gate
+	}
 	k.mtx.Lock()
 	defer k.mtx.Unlock()
 	k.calls++
@@ -251,7 +280,11 @@ type verifC09State struct {
 	api     *verifC09API
 	handles map[string]*filehandle
 	seen    map[*filenode]bool
+	held    bool // Keep writes are being held back (between hflush and release): no quiescing
+	hung    bool // a Keep write slot stayed taken although no write can be in progress
 }
+
+const verifC09Patience = 10 * time.Second
 
 func verifC09Walk(n inode, path string, f func(path string, n inode)) {
 	switch n := n.(type) {
@@ -289,12 +322,21 @@ func verifC09Walk(n inode, path string, f func(path string, n inode)) {
 // in flight any more — also for writes whose result will be discarded (segment rewritten meanwhile),
 // which waitPrune does not wait for.
 func (st *verifC09State) quiesce() {
+	if st.held {
+		return
+	}
 	thr := st.fs.(*collectionFileSystem).throttle()
+	t0 := time.Now()
 	for i := 0; len(thr.c) > 0; i++ {
 		if i < 100 {
 			runtime.Gosched()
 		} else {
 			time.Sleep(50 * time.Microsecond)
+			if time.Since(t0) > verifC09Patience {
+				// the stub answers at once, so by now every write has returned: a slot was leaked
+				st.hung = true
+				return
+			}
 		}
 	}
 	for round := 0; round < 3; round++ {
@@ -494,12 +536,20 @@ func (st *verifC09State) op(op string) string {
 			return verifC09Err(st.fs.Remove(path))
 		}
 		return verifC09Err(st.fs.RemoveAll(path))
-	case a[0] == "flush" && len(a) == 3:
+	case (a[0] == "flush" || a[0] == "hflush") && len(a) == 3:
 		path, ok := verifC09Path(a[1])
 		if !ok {
 			return "bad-op"
 		}
+		if a[0] == "hflush" {
+			st.kc.hold()
+			st.held = true
+		}
 		return done(verifC09Err(st.fs.Flush(path, a[2] == "1")))
+	case a[0] == "release" && len(a) == 1:
+		st.kc.release()
+		st.held = false
+		return done("ok")
 	case a[0] == "shapes" && len(a) == 1:
 		st.quiesce()
 		var out []string
@@ -613,12 +663,37 @@ func verifC09Case(line string) (out string) {
 	st := &verifC09State{fs: fs, kc: kc, api: api, handles: map[string]*filehandle{}, seen: map[*filenode]bool{}}
 	res := []string{"load=ok"}
 	for _, op := range ops {
-		r := st.op(op)
+		ch := make(chan string, 1)
+		go func() {
+			defer func() {
+				if r := recover(); r != nil {
+					ch <- strings.Join(strings.Fields(fmt.Sprintf("panic %v", r)), " ")
+				}
+			}()
+			ch <- st.op(op)
+		}()
+		var r string
+		select {
+		case r = <-ch:
+		case <-time.After(3 * verifC09Patience):
+			r = "hang"
+		}
 		if r == "bad-op" {
+			kc.release()
 			return "bad-op"
 		}
+		if st.hung && r != "hang" {
+			r = "hang"
+		}
 		res = append(res, r)
+		if r == "hang" || strings.HasPrefix(r, "panic") {
+			// the filesystem is stuck (or broken): give up on this case; its goroutines stay parked
+			kc.release()
+			return strings.Join(res, ";")
+		}
 	}
+	kc.release()
+	st.held = false
 	st.quiesce()
 	return strings.Join(res, ";")
 }
